@@ -1,12 +1,19 @@
 ENGINES = [
     {"name": "fragcheck", "path": "/verif/fragcheck", "serves_properties": ["C01", "C05"],
      "kind_free_text": "fragment contracts of Expr.__teal__: real method executed on opaque child proxies, symbolic execution of the returned block graph against the documented meaning (z3, uninterpreted child semantics, cut-point simulation for loops)"},
-    {"name": "pyvc", "path": "/verif/pyvc", "serves_properties": ["C02", "C03", "C16"],
+    {"name": "pyvc", "path": "/verif/pyvc", "serves_properties": ["C02", "C03", "C04", "C16"],
      "kind_free_text": "symbolic executor of a Python subset over the real source (ast re-read on every run) with sidecar contracts, loop invariants, callee contracts; VCs discharged by z3 (cvc5 for unknowns)"},
 ]
 NOTES = "Obligation kinds P/E/F are counted as proved; B (bounded stand-ins) are labelled and never counted. See DESIGN.md."
 NOT_APPLICABLE = {}
 CHECKS = {
+    "C04": {
+        "level": "other", "engine": "pyvc",
+        "technique": "contracts on verifyOpsForVersion / verifyOpsForMode / verifyProgramVersion (pyvc loop invariants, z3) + exhaustive table comparison of Op / TxnField / GlobalField with an independent langspec + bounded structural validation of emitted TEAL",
+        "text": "The version and mode gates are proved for every component list: compilation passes them iff every op exists at the version and in the mode. Every row of pyteal's opcode, transaction-field and global-field tables equals the independently written AVM table (name, first version, modes, type, array-ness). Pragma, label uniqueness, defined targets, placeholders, terminators and immediate ranges are validated on the emitted text of generated programs and hand-written probes (bounded).",
+        "note": "trusted: spec/langspec.py (hand-written from the AVM spec), spec/tealcheck.py. flattenBlocks / resolveSubroutines label contracts not yet discharged deductively.",
+        "design_ref": "DESIGN.md 5/C04",
+    },
     "C03": {
         "level": "other", "engine": "pyvc",
         "technique": "contracts on the option-default functions (pyvc/z3); version-parametric fragment contracts (C01); bounded stand-in: every option pair x versions on generated programs against the description's meaning",
